@@ -436,7 +436,7 @@ Proof.
 Qed.
 
 Lemma dyn_store sc lv rho (e0 : expr3) x e r1 rho1 :
-  (forall f l tail s, compile_expression (S f) l tail (cell_of3 e0) s =
+  (wf3 e0 sc -> forall f l tail s, compile_expression (S f) l tail (cell_of3 e0) s =
     (dom l1 <- compile_expression f l false (cell_of3 e);
      dom sym_ref <- put_cell_m (CSym x);
      dom operand <- location_operand (emit (emit_op l1 OMov) VAcc) sym_ref;
@@ -446,7 +446,7 @@ Lemma dyn_store sc lv rho (e0 : expr3) x e r1 rho1 :
   body_ok sc lv rho e r1 rho1 -> body_ok sc lv rho e0 (R3Base (RDatum CVoid)) (upd3 rho1 x r1).
 Proof.
   intros Heq Hsz Hw IH f l tail s l' s' code Hwf Hf Hh MI Hcomp Hfwd. destruct f as [|f]; [lia|].
-  destruct (Hw Hwf) as [Hpx We]. rewrite Heq in Hcomp.
+  destruct (Hw Hwf) as [Hpx We]. rewrite (Heq Hwf) in Hcomp.
   destruct (static3 e sc We f l false s ltac:(lia) Hh MI) as (l1 & s1 & c1 & E1 & F1 & S1 & MI1 & X1 & R1 & _).
   destruct (put_sym_m_ok x s1 MI1) as (a & s2 & E2 & MI2 & X2 & R2 & A & C & Eb & Eg).
   destruct (get_binding_ok a s2 MI2) as (k & s3 & E3 & MI3 & X3 & R3 & Eh & Es & B).
@@ -543,5 +543,184 @@ Proof.
     + exact Hrc.
     + cbv iota. rewrite <- L3. exact (IHx f l3 tail s1 l4 s2 ca Wa ltac:(lia) Hh3 MI1 E4 F4).
 Qed.
+
+Lemma dyn_local sc lv rho x i r : pindex x sc = Some i -> nth_error lv (N.to_nat i) = Some r ->
+  body_ok sc lv rho (YVar x) r rho.
+Proof.
+  intros Hpi Hn f l tail s l' s' code Hx Hf Hh MI Hcomp Hfwd. destruct f as [|f]; [lia|].
+  cbn [wf3] in Hx. cbn [cell_of3] in Hcomp. rewrite (compile_var_eq _ _ _ _ _ Hx) in Hcomp.
+  destruct (put_sym_m_ok x s MI) as (a & s1 & E1 & MI1 & X1 & R1 & A & C & Eb & Eg).
+  unfold bindM at 1 in Hcomp. rewrite E1 in Hcomp. unfold bindM at 1 in Hcomp.
+  rewrite (location_local3 l sc s1 a x i (hdr3_ext _ _ _ _ X1 Hh) (mi_heap _ MI1) A C Hpi) in Hcomp.
+  unfold ret in Hcomp. injection Hcomp as <- <-.
+  rewrite fwd_emit3 in Hfwd. apply app_inv_head in Hfwd. subst code. apply exec3_load_local. exact Hn.
+Qed.
+
+Lemma dyn_global sc lv rho x r : pindex x sc = None -> rho x = Some r -> r <> R3Base (RDatum CUndef) ->
+  body_ok sc lv rho (YVar x) r rho.
+Proof.
+  intros Hpi Hr Hu f l tail s l' s' code Hx Hf Hh MI Hcomp Hfwd. destruct f as [|f]; [lia|].
+  cbn [wf3] in Hx. cbn [cell_of3] in Hcomp. rewrite (compile_var_eq _ _ _ _ _ Hx) in Hcomp.
+  destruct (put_sym_m_ok x s MI) as (a & s1 & E1 & MI1 & X1 & R1 & A & C & Eb & Eg).
+  destruct (get_binding_ok a s1 MI1) as (k & s2 & E2 & MI2 & X2 & R2 & Eh & Es & B).
+  unfold bindM at 1 in Hcomp. rewrite E1 in Hcomp. unfold bindM at 1 in Hcomp.
+  rewrite (location_global3 l sc s1 a x (hdr3_ext _ _ _ _ X1 Hh) (mi_heap _ MI1) A C Hpi) in Hcomp.
+  unfold bindM at 1 in Hcomp. rewrite E2 in Hcomp. unfold ret in Hcomp. injection Hcomp as <- <-.
+  rewrite fwd_emit3 in Hfwd. apply app_inv_head in Hfwd. subst code.
+  apply (exec3_load_global ob s2 _ a k x); auto; rewrite Eh; assumption.
+Qed.
+
+Lemma dyn_lam sc lv rho ps fs body cvals :
+  Forall2 (fun x v => exists i, pindex x sc = Some i /\ nth_error lv (N.to_nat i) = Some v) (capnames sc fs) cvals ->
+  body_ok sc lv rho (YLam ps fs body) (R3Clo ps (capnames sc fs) body cvals) rho.
+Proof.
+  intros Fv f l tail s l' s' code Hwf Hf Hh MI Hcomp Hfwd.
+  pose proof Hwf as Hwf'. cbn [wf3] in Hwf'. destruct Hwf' as (_ & _ & _ & _ & Wb).
+  cbn [cell_of3] in *.
+  destruct (lam_static3 sc ps fs body Hwf (static3 body _ Wb) f l tail s Hf Hh MI)
+    as (l2 & s2 & lamp & lamF & caps & cb & f' & lam2 & s3 & lam3 & s4 & E & F & _ & MI2 & X2 & _ & _ &
+        Hlam & Hem & Fa & Fc & Hbc & Hf' & Hh2 & MI3 & Ecomp & F2 & F3 & X4).
+  rewrite E in Hcomp. injection Hcomp as <- <-.
+  rewrite F in Hfwd. apply app_inv_head in Hfwd. subst code.
+  apply (exec3_lam s2 _ lamp lamF caps sc ps (capnames sc fs) body tail lv rho cvals Hlam Hem Fa Fc); [|exact Fv].
+  exists lamF, caps, cb, f', lam2, s3, lam3, s4.
+  split; [exact Hlam|]. split; [exact Hem|]. split; [exact Fa|].
+  split.
+  { clear -Fc. induction Fc as [|e x caps cs (_ & k & Hk & _) _ IH]; constructor; [exists k; exact Hk|exact IH]. }
+  split; [eapply Forall2_length; exact Fc|]. split; [exact Hbc|]. split; [exact Hf'|]. split; [exact Wb|].
+  split; [exact Hh2|]. split; [exact MI3|]. split; [exact Ecomp|]. split; [exact F2|]. split; [exact F3|exact X4].
+Qed.
+
+(* the shape of a compiled application *)
+Lemma app_shape sc f0 args f l (tail : bool) s l' s' code :
+  wf3 (YApp f0 args) sc -> (cell_size (cell_of3 (YApp f0 args)) < f)%nat -> hdr3 l sc s -> minv s ->
+  compile_expression f l tail (cell_of3 (YApp f0 args)) s = ROk l' s' -> fwd l' = fwd l ++ code ->
+  exists f1 l1 s1 ca l2 l3 cf,
+    wf3 f0 sc /\ Forall (fun x => wf3 x sc) args /\
+    (cell_size (cells_of3 args) < f1)%nat /\ (cell_size (cell_of3 f0) < f1)%nat /\
+    args_loop (compile_expression f1) (cells_of3 args) l 0 s = ROk (l1, len args) s1 /\ fwd l1 = fwd l ++ ca /\
+    hdr3 l2 sc s1 /\ minv s1 /\ len (fwd l2) = len (fwd l) + len ca + 2 /\
+    compile_expression f1 l2 false (cell_of3 f0) s1 = ROk l3 s' /\ fwd l3 = fwd l2 ++ cf /\ cext s1 s' /\
+    code = ca ++ [VOp OPushImmediate; VArgc (len args)] ++ cf ++ [VOp (if tail then OTCallAcc else OCallAcc)].
+Proof.
+  intros Hwf Hf Hh MI Hcomp Hfwd. destruct f as [|f]; [cbn in Hf; lia|].
+  apply wf3_app in Hwf as (Hsp & Wf & Wargs).
+  cbn [cell_of3] in *. fold (cells_of3 args) in *. cbn [cell_size] in Hf.
+  rewrite compile_application_eq in Hcomp by exact Hsp.
+  destruct (args_static3 sc args (statics sc args Wargs) f l 0 s ltac:(lia) Hh MI)
+    as (l1 & s1 & ca & E1 & F1 & S1 & MI1 & X1 & R1 & _).
+  rewrite N.add_0_l in E1.
+  set (l2 := emit (emit_op l1 OPushImmediate) (VArgc (len args))) in *.
+  assert (S2 : same_hdr l l2) by (eapply same_hdr_trans; [exact S1|repeat split]).
+  pose proof (hdr3_same _ _ _ _ S2 (hdr3_ext _ _ _ _ X1 Hh)) as Hh2.
+  destruct (static3 f0 sc Wf f l2 false s1 ltac:(lia) Hh2 MI1) as (l3 & s2 & cf & E3 & F3 & S3 & MI2 & X2 & R2 & _).
+  unfold bindM at 1 in Hcomp. rewrite E1 in Hcomp. cbv beta iota in Hcomp. unfold bindM at 1 in Hcomp.
+  fold l2 in Hcomp. rewrite E3 in Hcomp. unfold ret in Hcomp. injection Hcomp as <- <-.
+  rewrite fwd_emit_op, F3 in Hfwd. unfold l2 in Hfwd. rewrite fwd_emit, fwd_emit_op, F1, <- !app_assoc in Hfwd.
+  apply app_inv_head in Hfwd. subst code.
+  exists f, l1, s1, ca, l2, l3, cf.
+  split; [exact Wf|]. split; [exact Wargs|]. split; [lia|]. split; [lia|]. split; [exact E1|]. split; [exact F1|].
+  split; [exact Hh2|]. split; [exact MI1|].
+  split; [unfold l2; rewrite fwd_emit, fwd_emit_op, F1; lens; lia|].
+  split; [exact E3|]. split; [exact F3|]. split; [exact X2|reflexivity].
+Qed.
+
+Lemma dyn_args_nil sc lv rho : args_okP sc lv rho [] [] rho.
+Proof.
+  intros f l n s l' n' s' code _ _ _ _ Hcomp Hfwd.
+  cbn [cells_of3 map fold_right args_loop] in Hcomp. unfold ret in Hcomp. injection Hcomp as <- _ <-.
+  rewrite <- (app_nil_r (fwd l)) in Hfwd at 1. apply app_inv_head in Hfwd. subst code.
+  apply exec_args3_nil.
+Qed.
+
+Lemma dyn_args_cons sc lv rho x r rho1 xs rs rho2 :
+  body_ok sc lv rho x r rho1 -> args_okP sc lv rho1 xs rs rho2 -> args_okP sc lv rho (x :: xs) (r :: rs) rho2.
+Proof.
+  intros IHx IHr f l n s l' n' s' code Wall Hf Hh MI Hcomp Hfwd.
+  inversion Wall as [|x' xs' Wx Wr]; subst.
+  destruct (cells3_size x xs) as [Sx Sr].
+  change (cells_of3 (x :: xs)) with (CPair (cell_of3 x) (cells_of3 xs)) in *. cbn [args_loop] in Hcomp.
+  destruct (static3 x sc Wx f l false s ltac:(lia) Hh MI) as (l1 & s1 & cx & E1 & F1 & S1 & MI1 & X1 & R1 & _).
+  assert (S1' : same_hdr l (emit_op l1 OPushAcc)) by (eapply same_hdr_trans; [exact S1|repeat split]).
+  pose proof (hdr3_same _ _ _ _ S1' (hdr3_ext _ _ _ _ X1 Hh)) as Hh1.
+  destruct (args_static3 sc xs (statics sc xs Wr) f (emit_op l1 OPushAcc) (n + 1) s1 ltac:(lia) Hh1 MI1)
+    as (l2 & s2 & cr & E2 & F2 & S2 & MI2 & X2 & R2 & _).
+  unfold bindM at 1 in Hcomp. rewrite E1 in Hcomp. rewrite E2 in Hcomp. injection Hcomp as <- _ <-.
+  rewrite F2, fwd_emit_op, F1, <- !app_assoc in Hfwd. apply app_inv_head in Hfwd. subst code.
+  rewrite len_cons.
+  apply (exec_args3_cons ob s2 _ cx cr (len xs) lv rho r rho1 rs rho2).
+  - apply (exec3_ext ob s2 s1); [exact X2|]. exact (IHx f l false s l1 s1 cx Wx ltac:(lia) Hh MI E1 F1).
+  - pose proof (IHr f (emit_op l1 OPushAcc) (n + 1) s1 l2 _ s2 cr Wr ltac:(lia) Hh1 MI1 E2 F2) as H.
+    rewrite fwd_emit_op, F1 in H. replace (len ((fwd l ++ cx) ++ [VOp OPushAcc])) with (len (fwd l) + len cx + 1) in H by (lens; lia).
+    exact H.
+Qed.
+
+Section Main3.
+Hypothesis Hb : forall b, builtin_ok ob bsem b.
+Hypothesis He : forall b, builtin_envs ob bsem b.
+
+Lemma dyn_app_builtin sc lv rho f0 args rbs rho1 b rho2 r :
+  args_okP sc lv rho args (map R3Base rbs) rho1 -> body_ok sc lv rho1 f0 (R3Base (RBuiltin b)) rho2 ->
+  bsem b rbs = Some r -> body_ok sc lv rho (YApp f0 args) (R3Base r) rho2.
+Proof.
+  intros IHa IHf Hsem f l tail s l' s' code Hwf Hf Hh MI Hcomp Hfwd.
+  destruct (app_shape sc f0 args f l tail s l' s' code Hwf Hf Hh MI Hcomp Hfwd)
+    as (f1 & l1 & s1 & ca & l2 & l3 & cf & Wf & Wargs & Hf1 & Hf2 & E1 & F1 & Hh2 & MI1 & L2 & E3 & F3 & X2 & ->).
+  apply (exec3_app_builtin ob bsem s' _ ca cf (len args) tail lv rho rbs rho1 b rho2 r Hb He).
+  - apply (exec_args3_ext ob s' s1); [exact X2|]. exact (IHa f1 l 0 s l1 _ s1 ca Wargs Hf1 Hh MI E1 F1).
+  - rewrite <- L2. exact (IHf f1 l2 false s1 l3 s' cf Wf Hf2 Hh2 MI1 E3 F3).
+  - exact Hsem.
+Qed.
+
+Lemma dyn_app_closure sc lv rho f0 args rs rho1 ps cs body cvals rho2 r rho3 :
+  length rs = length args ->
+  args_okP sc lv rho args rs rho1 -> body_ok sc lv rho1 f0 (R3Clo ps cs body cvals) rho2 ->
+  length rs = length ps -> body_ok (ps ++ cs) (rs ++ cvals) rho2 body r rho3 ->
+  body_ok sc lv rho (YApp f0 args) r rho3.
+Proof.
+  intros Hla IHa IHf Hlrs IHb f l tail s l' s' code Hwf Hf Hh MI Hcomp Hfwd.
+  destruct (app_shape sc f0 args f l tail s l' s' code Hwf Hf Hh MI Hcomp Hfwd)
+    as (f1 & l1 & s1 & ca & l2 & l3 & cf & Wf & Wargs & Hf1 & Hf2 & E1 & F1 & Hh2 & MI1 & L2 & E3 & F3 & X2 & ->).
+  apply (exec3_app_closure s' _ ca cf (len args) tail lv rho rs rho1 ps cs body cvals rho2 r rho3).
+  - apply (exec_args3_ext ob s' s1); [exact X2|]. exact (IHa f1 l 0 s l1 _ s1 ca Wargs Hf1 Hh MI E1 F1).
+  - rewrite <- L2. exact (IHf f1 l2 false s1 l3 s' cf Wf Hf2 Hh2 MI1 E3 F3).
+  - exact Hlrs.
+  - unfold len. rewrite <- Hla, Hlrs. reflexivity.
+  - exact IHb.
+Qed.
+
+(* THE THEOREM: for every reference derivation of e, every successful compilation of e into a
+   lambda under construction whose environment map binds sc produces code that computes the
+   reference value, in the sense of exec3 *)
+Theorem compile_correct3 : forall sc lv rho e r rho', ref_eval3 bsem sc lv rho e r rho' ->
+  body_ok sc lv rho e r rho'.
+Proof.
+  apply (ref_eval3_min bsem body_ok args_okP).
+  - intros sc lv rho c f l tail s l' s' code Hwf. pose proof Hwf as [Hs Hd]. revert f l tail s l' s' code Hwf.
+    apply (dyn_datum sc lv rho (YConst c) c); [intros; apply compile_const_eq; exact Hs|exact Hd].
+  - intros sc lv rho d f l tail s l' s' code Hwf. pose proof Hwf as Hd. cbn [wf3] in Hd. revert f l tail s l' s' code Hwf.
+    apply (dyn_datum sc lv rho (YQuote d) d); [intros; apply compile_quote_form|exact Hd].
+  - intros sc lv rho x i r Hp Hn. apply (dyn_local sc lv rho x i r Hp Hn).
+  - intros sc lv rho x r Hp Hr Hu. apply dyn_global; assumption.
+  - intros sc lv rho c a b rc rho1 r rho2 _ IHc Hrc _ IHa. apply (dyn_if sc lv rho c a b rc rho1 r rho2 false IHc Hrc IHa).
+  - intros sc lv rho c a b rc rho1 r rho2 _ IHc Hrc _ IHb. apply (dyn_if sc lv rho c a b rc rho1 r rho2 true IHc Hrc IHb).
+  - intros sc lv rho c a rc rho1 r rho2 _ IHc Hrc _ IHa. apply (dyn_if1 sc lv rho c a rc rho1 r rho2 false IHc Hrc IHa).
+  - intros sc lv rho c a rc rho1 _ IHc Hrc. apply (dyn_if1 sc lv rho c a rc rho1 _ rho1 true IHc Hrc). split; reflexivity.
+  - intros sc lv rho x e r rho1 _ IH. apply (dyn_store sc lv rho (YDefine x e) x e r rho1); [| | |exact IH].
+    + intros (Hx & _ & _) f l tail s. apply compile_define_eq. exact Hx.
+    + cbn [cell_of3 cell_size]. lia.
+    + intros (_ & Hp & We). split; assumption.
+  - intros sc lv rho x e r rho1 old _ IH _. apply (dyn_store sc lv rho (YSet x e) x e r rho1); [| | |exact IH].
+    + intros (Hx & _ & _) f l tail s. apply compile_set_eq. exact Hx.
+    + cbn [cell_of3 cell_size]. lia.
+    + intros (_ & Hp & We). split; assumption.
+  - intros sc lv rho ps fs body cvals Fv. apply dyn_lam. exact Fv.
+  - intros sc lv rho f0 args rbs rho1 b rho2 r _ IHa _ IHf Hsem. exact (dyn_app_builtin sc lv rho f0 args rbs rho1 b rho2 r IHa IHf Hsem).
+  - intros sc lv rho f0 args rs rho1 ps cs body cvals rho2 r rho3 HRa IHa _ IHf Hlrs _ IHb.
+    exact (dyn_app_closure sc lv rho f0 args rs rho1 ps cs body cvals rho2 r rho3 (ref_evals3_len _ _ _ _ _ _ HRa) IHa IHf Hlrs IHb).
+  - intros sc lv rho. apply dyn_args_nil.
+  - intros sc lv rho x r rho1 xs rs rho2 _ IHx _ IHr. exact (dyn_args_cons sc lv rho x r rho1 xs rs rho2 IHx IHr).
+Qed.
+End Main3.
 
 End Run3.
